@@ -112,16 +112,184 @@ def mk(name, ep=0, mps=8, spw=4, skip_req=None, kind="small"):
     return t
 
 
+def mk_e2e(name="dev_e2e"):
+    """The complete USBDevice of /repo (real token detector, data receiver, handshake detector/generator, transmit path)
+    with a control endpoint built as add_standard_control_endpoint() builds it -- real USBSetupDecoder, real
+    StandardRequestHandler with its real GET_DESCRIPTOR handler (block ROM) and StreamSerializer -- driven over the UTMI
+    receive bus by a host script.  The interface events (the model's inputs) are exported as OUTPUTS next to the
+    endpoint's answers, so that the specification monitors and the model can be run on what really crossed the interfaces."""
+    def build():
+        import luna.gateware.usb.usb2.control as ctlmod
+        import luna.gateware.usb.request.standard as stdmod
+        from luna.gateware.usb.usb2.device import USBDevice
+        from luna.gateware.usb.usb2.control import USBControlEndpoint
+        from luna.gateware.usb.usb2.request import USBSetupDecoder
+        from luna.gateware.usb.request.standard import StandardRequestHandler
+        from luna.gateware.usb.stream import USBInStreamInterface
+        from luna.gateware.stream.generator import StreamSerializer
+        from luna.gateware.interface.utmi import UTMIInterface
+        from usb_protocol.emitters import DeviceDescriptorCollection
+        descriptors = DeviceDescriptorCollection()
+        with descriptors.DeviceDescriptor() as d:
+            d.idVendor = 0x16d0; d.idProduct = 0xf3b; d.iManufacturer = "LUNA"; d.iProduct = "Test Device"
+            d.iSerialNumber = "1234"; d.bNumConfigurations = 1
+        with descriptors.ConfigurationDescriptor() as c:
+            with c.InterfaceDescriptor() as i:
+                i.bInterfaceNumber = 0
+                with i.EndpointDescriptor() as e:
+                    e.bEndpointAddress = 0x01; e.wMaxPacketSize = 64
+                with i.EndpointDescriptor() as e:
+                    e.bEndpointAddress = 0x81; e.wMaxPacketSize = 64
+        utmi = UTMIInterface()
+        dev = USBDevice(bus=utmi)
+        # the submodules USBControlEndpoint / StandardRequestHandler create inside elaborate(), created here so that
+        # their signals can be named as ports (same classes, same constructor arguments)
+        dec = USBSetupDecoder(utmi=dev.utmi)
+        ser = StreamSerializer(data_length=2, domain="usb", stream_type=USBInStreamInterface, max_length_width=2)
+        holder = {}
+
+        class Std(StandardRequestHandler):
+            def get_descriptor_handler_submodule(self): return holder["desc"]
+            def elaborate(self, platform):
+                o = stdmod.StreamSerializer; stdmod.StreamSerializer = lambda *a, **k: ser
+                try: return super().elaborate(platform)
+                finally: stdmod.StreamSerializer = o
+
+        class Ctl(USBControlEndpoint):
+            def elaborate(self, platform):
+                o = ctlmod.USBSetupDecoder; ctlmod.USBSetupDecoder = lambda *a, **k: dec
+                try: return super().elaborate(platform)
+                finally: ctlmod.USBSetupDecoder = o
+
+        std = Std(descriptors, max_packet_size=64)
+        holder["desc"] = desc = StandardRequestHandler.get_descriptor_handler_submodule(std)
+        ep = Ctl(utmi=dev.utmi)
+        ep.add_request_handler(std)
+        dev.add_endpoint(ep)
+        i = ep.interface; tk = i.tokenizer; sp = dec.packet
+        ins = [("rx_active", utmi.rx_active), ("rx_valid", utmi.rx_valid), ("rx_data", utmi.rx_data),
+               ("tx_ready", utmi.tx_ready), ("line_state", utmi.line_state), ("connect", dev.connect),
+               ("full_speed_only", dev.full_speed_only)]
+        ev = [("new_token", tk.new_token), ("rfr", tk.ready_for_response), ("is_in", tk.is_in), ("is_out", tk.is_out),
+              ("is_setup", tk.is_setup), ("is_ping", tk.is_ping), ("endpoint", tk.endpoint),
+              ("received", sp.received), ("is_in_request", sp.is_in_request), ("type", sp.type),
+              ("recipient", sp.recipient), ("request", sp.request), ("value", sp.value), ("index", sp.index),
+              ("length", sp.length), ("setup_ack", dec.ack), ("rx_rfr", i.rx_ready_for_response),
+              ("hs_ack", i.handshakes_in.ack), ("desc_stall", desc.stall), ("desc_valid", desc.tx.valid),
+              ("desc_first", desc.tx.first), ("desc_last", desc.tx.last), ("ser_valid", ser.stream.valid),
+              ("ser_first", ser.stream.first), ("ser_last", ser.stream.last)]
+        assert [n for n, _ in ev] == [n for n, _ in IN_WIDTHS]
+        outs = [("data_requested", std.interface.data_requested), ("status_requested", std.interface.status_requested),
+                ("hs_out_ack", i.handshakes_out.ack), ("hs_out_nak", i.handshakes_out.nak),
+                ("hs_out_stall", i.handshakes_out.stall), ("tx_valid", i.tx.valid), ("tx_first", i.tx.first),
+                ("tx_last", i.tx.last), ("tx_pid", i.tx_pid_toggle), ("address_changed", i.address_changed),
+                ("new_address", i.new_address), ("config_changed", i.config_changed), ("new_config", i.new_config),
+                ("clear_halt", i.clear_endpoint_halt_out.as_value()), ("desc_start", desc.start), ("ser_start", ser.start),
+                ("start_position", desc.start_position)]
+        wire = [("utmi_tx_valid", utmi.tx_valid), ("utmi_tx_data", utmi.tx_data)]
+        return dev, ins, ev + outs + wire
+    t = Target(name, build)
+    t.kind = "e2e"
+    t.params = dict(ep=0, mps=64, spw=11, skip_req=None)
+    return t
+
+
+E2E_OUT_BITS = 46     # width of the endpoint's answers in the e2e target's output word (after the 85 event bits)
+
+
+def e2e_traces(rng, n):
+    """Host scripts over UTMI at full speed, device address 0: control transfers on endpoint 0 with arbitrary setup
+    packets, abandoned at any stage, with traffic to other endpoints in between, lost / stray handshakes, corrupted
+    SETUP data."""
+    from props import C06 as W
+    const = dict(line_state=1, tx_ready=1, connect=1, full_speed_only=1)
+    def pk(b):
+        return [dict(rx_active=c["rx_active"], rx_valid=c["rx_valid"], rx_data=c["rx_data"], **const) for c in W.rx_packet(rng, b, 1)]
+    def idle(k):
+        return [dict(rx_active=0, rx_valid=0, rx_data=0, **const)] * k
+    def setup_bytes(s):
+        b0 = s["recipient"] | (s["type"] << 5) | (s["is_in_request"] << 7)
+        return [b0, s["request"], s["value"] & 0xFF, s["value"] >> 8, s["index"] & 0xFF, s["index"] >> 8,
+                s["length"] & 0xFF, s["length"] >> 8]
+    def setup_xact(s, ep=0, bad=False):
+        return pk(W.token(W.SETUP, ep=ep)) + idle(rng.randint(2, 4)) + pk(W.data(setup_bytes(s), bad=1 if bad else False)) + idle(rng.randint(22, 30))
+    def in_xact(ep=0, ack=True):
+        t = pk(W.token(W.IN, ep=ep)) + idle(rng.choice([30, 45, 100]))
+        if ack:
+            t += pk([W.ACK]) + idle(rng.randint(4, 8))
+        return t
+    def out_xact(ep=0, payload=(), pid=None):
+        return (pk(W.token(W.OUT, ep=ep)) + idle(rng.randint(2, 4)) + pk(W.data(list(payload), pid=pid or W.DATA1))
+                + idle(rng.randint(22, 30)))
+    def foreign():
+        t = []
+        while rng.random() < 0.3:
+            e = rng.choice([1, 2, 3])
+            k = rng.random()
+            if k < 0.4: t += in_xact(ep=e, ack=rng.random() < 0.7)
+            elif k < 0.7: t += out_xact(ep=e, payload=[rng.randrange(256) for _ in range(rng.randint(0, 9))])
+            elif k < 0.85: t += pk(W.token(W.SETUP, ep=e)) + idle(rng.randint(3, 20))
+            else: t += setup_xact(rand_setup(rng), ep=e)
+        return t
+    out = []
+    for _ in range(n):
+        tr = idle(rng.randint(12, 20))
+        for _ in range(rng.randint(2, 5)):
+            s = rand_setup(rng)
+            if s["request"] == 5 and s["type"] == 0:
+                s["value"] = 0                       # SET_ADDRESS 0: keep the script's device address valid
+            tr += foreign()
+            tr += setup_xact(s, bad=rng.random() < 0.1)
+            tr += foreign()
+            stages = []
+            if s["length"]:
+                stages += [("din" if s["is_in_request"] else "dout")] * rng.randint(1, 2)
+                stages += ["sout" if s["is_in_request"] else "sin"]
+            else:
+                stages += ["sin"]
+            if rng.random() < 0.1:
+                rng.shuffle(stages)
+            ab = rng.choice([0.0, 0.3, 0.6])
+            for st in stages:
+                if rng.random() < ab / len(stages):
+                    break
+                if st in ("din", "sin"):
+                    tr += in_xact(ack=rng.random() < 0.85)
+                elif st == "dout":
+                    tr += out_xact(payload=[rng.randrange(256) for _ in range(min(s["length"], rng.randint(1, 8)))])
+                else:
+                    tr += out_xact(payload=[])
+                tr += foreign()
+        out.append(tr + idle(4))
+    return out
+
+
+def gate_of(t):
+    """Which variant of handle_register_write_request does the tree implement?  Probe the real module on the simulator:
+    SET_ADDRESS decoded, then a host ACK before any status stage.  As found (and with the C07 patch alone) that ACK commits
+    the address (gate = false); with C08's candidate repair it is ignored (gate = true).  C07 / C10 hold for both variants
+    (all model theorems are stated for every value of `gate`); the probe only selects the variant the netlist is tied to."""
+    if not hasattr(t, "_gate"):
+        f = dict(TEMPLATES[1])
+        probe = [dict(f, received=1), dict(f, hs_ack=1), dict(f)]
+        out = t.simulate([probe])[0]
+        t._gate = "false" if out[1]["address_changed"] else "true"
+    return t._gate
+
+
 def coq_params(t):
     p = t.params
     skip = "skip_none" if p["skip_req"] is None else f"(skip_req {p['skip_req']})"
-    return f"{p['ep']} {p['mps']} {p['spw']} {skip}"
+    return f"{p['ep']} {p['mps']} {p['spw']} {skip} {gate_of(t)}"
 
 
 def targets(tier):
-    ts = [mk("ctl_ep0", ep=0, mps=8, spw=4), mk("ctl_ep0_real", ep=0, mps=64, spw=11, kind="real")]
+    # quick: the small configuration (kernel-checked tie) + the complete device at the real sizes (max_packet_size 64,
+    # 11-bit start_position); thorough adds the stubbed endpoint at the real sizes and two more small configurations
+    ts = [mk("ctl_ep0", ep=0, mps=8, spw=4), mk_e2e()]
     if tier != "quick":
-        ts += [mk("ctl_ep2_skip", ep=2, mps=8, spw=4, skip_req=9), mk("ctl_ep0_mps5", ep=0, mps=5, spw=3)]
+        ts += [mk("ctl_ep0_real", ep=0, mps=64, spw=11, kind="real"),
+               mk("ctl_ep2_skip", ep=2, mps=8, spw=4, skip_req=9), mk("ctl_ep0_mps5", ep=0, mps=5, spw=3)]
     return ts
 
 
@@ -302,8 +470,10 @@ def random_cycles(rng, n, ep):
 
 
 def traces(target, rng, tier):
+    if target.kind == "e2e":
+        return e2e_traces(rng, 5 if tier == "quick" else 16)
     ep = target.params["ep"]
-    n = 24 if tier == "quick" else 150
+    n = 18 if tier == "quick" else 60
     out = []
     for k in range(n):
         out.append(host_trace(rng, ep, rng.randint(1, 6), abandon=rng.choice([0.0, 0.35, 0.7]),
@@ -333,13 +503,20 @@ ASSUMPTIONS = [
     "compares.  Reported as part of finding C07-foreign-setup; only devices addressed with SETUP on a non-zero endpoint are affected",
     "handshakes_in.ack is taken as in the code: ANY host ACK completes a pending SET_ADDRESS / SET_CONFIGURATION / CLEAR_FEATURE and advances "
     "GET_DESCRIPTOR (the subject of C08, not restated here)",
+    "model parameter `gate` (C08's candidate repair of handle_register_write_request present or not) is chosen per run by a 3-cycle probe "
+    "of the real module on the simulator (props/C07.py gate_of); every model theorem is proved for both values",
     "PING is answered with ACK in the OUT data / OUT status phases by the stage FSM regardless of the request ([USB2.0 8.5.1]; modelled)",
     "netlist = model is kernel-checked for all traces, of any length, over a finite set of input words (request templates x token contexts "
     "incl. another endpoint and non-one-hot kinds x strobe combinations, every word may follow every word: no stability of fields or context "
     "is assumed); words outside the set (other field values) are covered by correspondence on simulator traces only",
     "tie configurations: (endpoint 0, max_packet_size 8, 4-bit start_position), and in the thorough tier (endpoint 2, skiplist = "
     "SET_CONFIGURATION) and (max_packet_size 5, 3-bit start_position: wrap-around); correspondence additionally at the real sizes "
-    "(max_packet_size 64, 11-bit start_position)",
+    "(max_packet_size 64, 11-bit start_position): thorough tier on the stubbed endpoint, both tiers on target dev_e2e",
+    "target dev_e2e: the complete USBDevice with a control endpoint assembled as add_standard_control_endpoint() does (the submodules that "
+    "USBControlEndpoint / StandardRequestHandler create inside elaborate() -- USBSetupDecoder, GET_DESCRIPTOR handler, StreamSerializer -- are "
+    "created by the harness with the same classes and arguments so that their signals can be observed), full speed, device address 0, "
+    "tx_ready always high, line state J; inputs are UTMI receive cycles from a host-script generator; the interface events are OUTPUT ports; "
+    "the monitors read the event word and the answer word from the output word",
 ]
 
 
@@ -357,14 +534,13 @@ def alphabet(ep, tier):
                    {"new_token": 1, "rx_rfr": 1, "desc_stall": 1, "desc_last": 1, "ser_first": 1}]
     else:
         tmpl = TEMPLATES
-        ctx = [(k, e) for e in (ep, other) for k in ("in", "out", "setup", "ping")] + [(None, ep), ("in+setup", ep)]
+        ctx = [(k, e) for e in (ep, other) for k in ("in", "out", "setup", "ping")] + [("in+setup", ep)]
         strobes = [{}, {"new_token": 1}, {"rfr": 1}, {"received": 1}, {"rx_rfr": 1}, {"hs_ack": 1}, {"desc_stall": 1},
-                   {"setup_ack": 1}, {"rfr": 1, "hs_ack": 1}, {"rfr": 1, "desc_stall": 1}, {"rx_rfr": 1, "hs_ack": 1},
-                   {"new_token": 1, "received": 1}, {"new_token": 1, "rfr": 1}, {"received": 1, "rfr": 1, "rx_rfr": 1},
-                   {"received": 1, "setup_ack": 1, "hs_ack": 1}, {"new_token": 1, "hs_ack": 1, "desc_stall": 1},
+                   {"rfr": 1, "hs_ack": 1}, {"rfr": 1, "desc_stall": 1}, {"new_token": 1, "received": 1},
+                   {"received": 1, "setup_ack": 1, "hs_ack": 1, "rx_rfr": 1},
                    {"rfr": 1, "rx_rfr": 1, "desc_valid": 1, "ser_valid": 1, "desc_first": 1, "ser_last": 1},
                    {"new_token": 1, "rx_rfr": 1, "desc_stall": 1, "desc_last": 1, "ser_first": 1},
-                   {"desc_valid": 1, "desc_last": 1}, {"ser_valid": 1, "ser_first": 1, "ser_last": 1, "rfr": 1}]
+                   {"new_token": 1, "rfr": 1, "hs_ack": 1, "setup_ack": 1}]
     words = []
     for t in tmpl:
         for kind, e in ctx:
@@ -384,9 +560,33 @@ def skip_expr(t):
     return "skip_none" if t.params["skip_req"] is None else f"(skip_req {t.params['skip_req']})"
 
 
+def e2e_obligations(t, small, which):
+    """monitors over the e2e target: the interface events are bits 0..84 of ITS OUTPUT word, the endpoint's answers the
+    next E2E_OUT_BITS bits"""
+    gate = gate_of(small)
+    obs = []
+    W, A = f"(bits o 0 {IN_BITS})", f"(bits o {IN_BITS} {E2E_OUT_BITS})"
+    if "spec" in which:
+        obs.append(tie.cmon(f"spec_{t.name}", t, mon=f"(fun m i o => cx_mon 0 skip_none m {W} {A})", m0="(mon_enc mon0)",
+                            describe="C07 specification monitor on the complete USBDevice driven over UTMI (real token detector, SETUP "
+                                     "decoder, descriptor handler, serializer): interface events and answers read off the implementation run"))
+    if "stall" in which:
+        obs.append(tie.cmon(f"stall_{t.name}", t, mon=f"(fun m i o => c10_mon 0 skip_none m {W} {A})", m0="(st10_enc st10_0)",
+                            describe="C10 specification monitor on the complete USBDevice driven over UTMI"))
+    obs.append(tie.cmon(f"model_{t.name}", t,
+                        mon=f"(fun m i o => let (s', a) := cx_stepN 0 64 11 skip_none {gate} (cx_dec m) {W} in Some (cx_enc s', a =? {A}))",
+                        m0="(cx_enc cx_init)",
+                        describe="model vs complete USBDevice driven over UTMI: the model, fed with the interface events of the implementation "
+                                 "run, must produce the implementation's answers in every cycle"))
+    return obs
+
+
 def obligations(targets, tier):
     obs = []
     for t in targets:
+        if t.kind == "e2e":
+            obs += e2e_obligations(t, targets[0], ("spec",))
+            continue
         P = coq_params(t)
         if t.kind == "small":
             al = alphabet(t.params["ep"], tier)
@@ -439,16 +639,22 @@ LEVEL_TEXT = ("Machine-checked proof, at the level of LUNA's own interfaces (tok
               "C07_fresh_after_setup / C07_history_independent / C07_nonstandard_history_independent / C07_first_answers_fresh -- every new SETUP "
               "puts stage FSM, request FSM, data PID, start_position and expecting_ack into the state that request calls for, whatever was "
               "abandoned before, and the first data/status request is answered as the request's class demands; C07_foreign_tokens_invisible -- "
-              "token reports for other endpoints change neither outputs nor state (no hypothesis). (2) Per run, the netlist regenerated from "
+              "token reports for other endpoints change neither outputs nor state (no hypothesis; with C08's repair of the register-write states, which "
+              "deliberately watch every new_token, the compared histories keep new_token). (2) Per run, the netlist regenerated from "
               "/repo is proved equal to the model on all traces over the tie alphabets (certified product reachability), which transfers (1) to "
-              "the netlist (C07_<target>). (3) Correspondence + specification monitors on simulator traces incl. the real sizes.")
+              "the netlist (C07_<target>). (3) Checked, not proved: model correspondence and specification monitors on simulator traces of the "
+              "stubbed endpoint (host scripts + unconstrained random words), and on the COMPLETE USBDevice (real token detector, SETUP decoder, "
+              "descriptor ROM handler, serializer; max_packet_size 64) driven over UTMI by host scripts with abandoned transfers and traffic to "
+              "other endpoints: the model, fed with the interface events read off the implementation run, reproduces the endpoint's answers in "
+              "every cycle, and the specification monitors accept.")
 LEVEL_NOTE = ("The model is the property-satisfying behaviour; the unchanged /repo violates the property in three places (findings/C07-*.json, "
               "candidate patch findings/C07-fresh-setup.diff): (a) StandardRequestHandler dispatches setup.received only in IDLE, so a transfer "
               "abandoned before its status stage / host ACK leaves the handler in the old request's state and the next SETUP is answered by the "
               "old request's logic; (b) _handle_setup_reset is not gated by endpoint_targeted, so a SETUP token to another endpoint aborts the "
               "transfer; (c) see C10. `./check C07` exits 1 on the unchanged tree and 0 with the patch. Partial / assumed: the producers of the "
-              "interface events are stubs here (their contracts are C01/C02/C04/C06/C09 and the environment hypothesis); the wire-level view "
-              "(UTMI bytes) is not restated; the netlist tie quantifies over finite input alphabets; the SETUP decoder's acceptance of SETUP "
+              "interface events are stubs in the proved tie (their contracts are C01/C02/C04/C06/C09 and the environment hypothesis); with the real "
+              "producers (complete device over UTMI) the statements are only checked on simulator traces; the property is stated on interface "
+              "events, not restated on UTMI bytes; the netlist tie quantifies over finite input alphabets; the SETUP decoder's acceptance of SETUP "
               "tokens for other endpoints is recorded as a finding, not repaired in the model's inputs. Trusted: Coq kernel + vm_compute, "
               "Amaranth elaboration, nir2coq.py/Netlist.v/slice.py (validated each run against pysim).")
 TECHNIQUE = ("Rocq proof: history-function specification + simulation invariant (stage FSM = phase of the last SETUP), freshness and "
